@@ -256,10 +256,109 @@ pub fn counters() -> Vec<u64> {
     cs
 }
 
+/// Supplementary, free-running (a SAMPLE of schedules, labelled so): four threads call the stateless primitives at the same
+/// time, each with its own inputs -- HMAC keys longer and shorter than a block, HKDF, SHA-256, the AEAD -- 2000 rounds
+/// each; every call must return the value of its own inputs. (State shared between calls -- a cache -- would show here.)
+/// Thorough tier only (about 13 GiB of memory for a minute): one message of exactly 2^32 bytes through seal and open --
+/// RFC 8439 limits a message to 2^32 - 1 BLOCKS of 64 bytes, not bytes.
+fn four_gib_message(rep: &Report) {
+    let n: usize = 1 << 32;
+    let key = derive32(rep.seed, "c19-4gib-key");
+    let nonce = [7u8; 12];
+    let mut pt = vec![0u8; n];
+    for (i, c) in pt.chunks_mut(1 << 20).enumerate() {
+        c[0] = i as u8;
+        c[(1 << 20) - 1] = (i >> 8) as u8;
+    }
+    rep.eval(2);
+    rep.nontrivial(b"aead-4gib");
+    let case = json!({"kind":"aead-4gib"});
+    match guarded(|| kc::chapoly_encrypt_ietf(&key, &nonce, &pt, b"aad")) {
+        Err(m) => rep.violation("aead-seal-panic", case, format!("seal of a message of 2^32 bytes panicked: {}", m)),
+        Ok(ct) => {
+            let want = r::aead_seal(&key, &nonce, b"aad", &pt);
+            if ct != want {
+                rep.violation("aead-seal-differs", case.clone(), "seal of a message of 2^32 bytes differs from RFC 8439".into());
+            }
+            drop(want);
+            match guarded(|| kc::chapoly_decrypt_ietf(&key, &nonce, &ct, b"aad")) {
+                Ok(Ok(back)) if back == pt => {}
+                Ok(Ok(_)) => rep.violation("aead-open-wrong", case, "open(seal(pt)) != pt for a message of 2^32 bytes".into()),
+                Ok(Err(_)) => rep.violation("aead-open-rejects-authentic", case, "open rejects an authentic ciphertext of 2^32 + 16 bytes".into()),
+                Err(m) => rep.violation("aead-open-panic", case, format!("open of 2^32 + 16 bytes panicked: {}", m)),
+            }
+        }
+    }
+}
+
+fn concurrent_primitives(rep: &Report) {
+    use std::sync::atomic::{AtomicU64, Ordering};
+    let seed = rep.seed;
+    let nthreads = 4usize;
+    let rounds = 2000usize;
+    struct In {
+        key_long: Vec<u8>,
+        key_short: Vec<u8>,
+        data: Vec<u8>,
+        hm_long: Vec<u8>,
+        hm_short: Vec<u8>,
+        hk: Vec<u8>,
+        sha: Vec<u8>,
+        aead: Vec<u8>,
+        akey: [u8; 32],
+    }
+    let inputs: Vec<In> = (0..nthreads)
+        .map(|i| {
+            let key_long = derive(seed, &format!("c19-conc-kl-{}", i), 65 + 7 * i);
+            let key_short = derive(seed, &format!("c19-conc-ks-{}", i), 20 + i);
+            let data = derive(seed, &format!("c19-conc-d-{}", i), 100 + i);
+            let akey = derive32(seed, &format!("c19-conc-ak-{}", i));
+            In { hm_long: r::hmac_sha256(&key_long, &data).to_vec(), hm_short: r::hmac_sha256(&key_short, &data).to_vec(), hk: r::hkdf_sha256(&key_long, &data, &key_short, 48), sha: r::sha256(&data).to_vec(), aead: r::aead_seal(&akey, &[0u8; 12], &key_short, &data), key_long, key_short, data, akey }
+        })
+        .collect();
+    let wrong = AtomicU64::new(0);
+    let first = std::sync::Mutex::new(String::new());
+    let barrier = std::sync::Barrier::new(nthreads);
+    std::thread::scope(|sc| {
+        for inp in &inputs {
+            let (wrong, first, barrier) = (&wrong, &first, &barrier);
+            sc.spawn(move || {
+                barrier.wait();
+                for _ in 0..rounds {
+                    let checks: [(&str, bool); 5] = [
+                        ("hmac_sha256 with a key longer than a block", kc::hmac_sha256(&inp.key_long, &inp.data) == inp.hm_long),
+                        ("hmac_sha256 with a short key", kc::hmac_sha256(&inp.key_short, &inp.data) == inp.hm_short),
+                        ("hkdf_sha256", kc::hkdf_sha256(&inp.key_long, &inp.data, &inp.key_short, 48) == inp.hk),
+                        ("sha256", kc::sha256(&inp.data) == inp.sha),
+                        ("chapoly_encrypt_ietf", kc::chapoly_encrypt_ietf(&inp.akey, &[0u8; 12], &inp.data, &inp.key_short) == inp.aead),
+                    ];
+                    for (n, ok) in checks {
+                        if !ok {
+                            wrong.fetch_add(1, Ordering::Relaxed);
+                            let mut f = first.lock().unwrap();
+                            if f.is_empty() {
+                                *f = n.to_string();
+                            }
+                        }
+                    }
+                }
+            });
+        }
+    });
+    rep.eval((nthreads * rounds * 5) as u64);
+    rep.nontrivial(b"concurrent-primitives");
+    let w = wrong.load(Ordering::Relaxed);
+    if w > 0 {
+        rep.violation("concurrent/wrong-value", json!({"kind":"concurrent"}), format!("{} of {} calls made by {} threads at the same time returned a value that is not the RFC value of their own inputs (first: {})", w, nthreads * rounds * 5, nthreads, first.lock().unwrap()));
+    }
+    rep.extra("concurrent_primitive_calls", json!({"threads":nthreads,"rounds":rounds,"note":"free-running threads: a sample of schedules"}));
+}
+
 pub fn run(rep: &Report) {
     let seed = rep.seed;
     rep.set_rule("E-GRID: every (primitive, input shape) point of the stated grids is evaluated once against OpenSSL; a case is non-trivial when at least one output byte or an accept/reject decision is compared; distinct = distinct (primitive, shape, value-set) tuples");
     rep.rule_add("one-byte neighbours of the small-order points; HKDF length x fill grid.");
+    rep.rule_add("Supplementary free-running pass: 4 threads x 2000 rounds x 5 primitives with their own inputs (a sample of schedules). Thorough: one AEAD message of 2^32 bytes.");
     rep.rule_add("Tags at Hamming distance two (all 8128), exchanged / equally masked byte pairs, rotations and reversal, both AEAD openers.");
     rep.assume("data values (keys, nonces, message bytes) come from fixed seed-derived alphabets; the arithmetic is orion's and is exercised over the shape grid only");
     rep.assume("OpenSSL 3 libcrypto is the reference for RFC 8439/7748/2104/FIPS 180-4; HKDF reference is RFC 5869 built on OpenSSL HMAC");
@@ -538,6 +637,10 @@ pub fn run(rep: &Report) {
     }
     rep.extra("noise_counters_swept", json!(cs.len()));
     rep.sample(json!({"kind":"noise-aead","counter":(u64::MAX-1).to_string(),"pt_len":33,"ad_len":12}));
+    concurrent_primitives(rep);
+    if rep.tier == Tier::Thorough {
+        four_gib_message(rep);
+    }
     rep.set_exhaustive(true);
 }
 
@@ -550,6 +653,8 @@ pub fn replay(rep: &Report, case: &Value) {
         "aead-alter" => aead_alter_case(rep, &a32(g("key")), &a12(g("nonce")), &g("aad"), &g("pt")),
         "aead-short" => short_case(rep, &a32(g("key")), &a12(g("nonce")), case["len"].as_u64().unwrap() as usize, case["fill"].as_u64().unwrap() as u8),
         "x25519" => x25519_case(rep, case["k_name"].as_str().unwrap_or("k"), &a32(g("scalar")), case["u_name"].as_str().unwrap_or("u"), &a32(g("u"))),
+        "concurrent" => concurrent_primitives(rep),
+        "aead-4gib" => four_gib_message(rep),
         "tag-variant" => tag_variant_case(rep, case["which"].as_str().unwrap(), &a32(g("key")), case["counter"].as_str().unwrap().parse().unwrap(), &g("aad"), &g("pt")),
         "noise-aead" => noise_case(rep, &a32(g("key")), case["counter"].as_str().unwrap().parse().unwrap(), &g("ad"), &g("pt")),
         "hkdf" => {
